@@ -162,6 +162,10 @@ func cmdCheck(args []string) (code int) {
 	run.Count("files", p.Files)
 	run.Count("functions", len(p.Decls))
 	c := rules.NewCtx(p, tier, run)
+	if check.NeedSSA {
+		c.PrepareSSA() // SSA is built from the untouched syntax
+	}
+	load.Normalize(p)
 	rules.CrossCheck = tier == "thorough"
 	check.Fn(c)
 	if tier == "thorough" {
@@ -170,6 +174,7 @@ func cmdCheck(args []string) (code int) {
 		}
 		rules.CrossCheck = false
 		selfTest(id, repo, verif, check, run)
+		benignTest(id, repo, verif, check, run)
 	}
 	return run.Finish(verif)
 }
@@ -240,7 +245,12 @@ func selfTest(id, repo, verif string, check rules.Check, run *report.Run) {
 						sub.Break(fmt.Sprint("panic: ", r))
 					}
 				}()
-				check.Fn(rules.NewCtx(p2, "quick", sub))
+				c2 := rules.NewCtx(p2, "quick", sub)
+				if check.NeedSSA {
+					c2.PrepareSSA()
+				}
+				load.Normalize(p2)
+				check.Fn(c2)
 			}()
 			fresh, broken := sub.Fresh(verif)
 			run.Count("selftest_seeds", 1)
@@ -256,6 +266,73 @@ func selfTest(id, repo, verif string, check rules.Check, run *report.Run) {
 				what = "fails closed: " + broken[0]
 			}
 			run.Note("self-test: seeded change " + name + " is reported (" + what + ")")
+		}()
+	}
+}
+
+// benignTest (thorough tier): every behaviour-preserving refactoring kept under <verif>/benign is
+// applied to a scratch copy of the current tree and the check must stay silent on it; a report
+// there is a false alarm of the machinery and breaks the check. Patches that no longer apply are skipped.
+func benignTest(id, repo, verif string, check rules.Check, run *report.Run) {
+	patches, _ := filepath.Glob(filepath.Join(verif, "benign", "*", "patch.diff"))
+	sort.Strings(patches)
+	for _, patch := range patches {
+		name := filepath.Base(filepath.Dir(patch))
+		tmp, err := os.MkdirTemp("", "verif-benign-")
+		if err != nil {
+			run.Break("self-test: cannot create a scratch directory: " + err.Error())
+			return
+		}
+		func() {
+			defer os.RemoveAll(tmp)
+			if err := copyTree(repo, tmp); err != nil {
+				run.Break("self-test: cannot copy the tree: " + err.Error())
+				return
+			}
+			cmd := exec.Command("git", "apply", "--whitespace=nowarn", patch)
+			cmd.Dir = tmp
+			cmd.Env = append(os.Environ(), "GIT_DIR=/nonexistent", "GIT_CEILING_DIRECTORIES="+filepath.Dir(tmp))
+			if _, err := cmd.CombinedOutput(); err != nil {
+				cmd2 := exec.Command("patch", "-p1", "-s", "-i", patch)
+				cmd2.Dir = tmp
+				if _, err2 := cmd2.CombinedOutput(); err2 != nil {
+					run.Note("self-test: refactoring " + name + " does not apply to the current tree, skipped")
+					run.Count("selftest_skipped", 1)
+					return
+				}
+			}
+			p2, err := load.Load(tmp, check.NeedSSA)
+			if err != nil {
+				run.Note("self-test: refactoring " + name + " does not type-check on the current tree, skipped")
+				run.Count("selftest_skipped", 1)
+				return
+			}
+			sub := report.NewRun(id, "quick")
+			func() {
+				defer func() {
+					if r := recover(); r != nil {
+						sub.Break(fmt.Sprint("panic: ", r))
+					}
+				}()
+				c2 := rules.NewCtx(p2, "quick", sub)
+				if check.NeedSSA {
+					c2.PrepareSSA()
+				}
+				load.Normalize(p2)
+				check.Fn(c2)
+			}()
+			fresh, broken := sub.Fresh(verif)
+			run.Count("selftest_refactorings", 1)
+			run.Oblige(len(fresh)+len(broken) == 0)
+			if len(fresh)+len(broken) > 0 {
+				what := ""
+				if len(fresh) > 0 {
+					what = fresh[0].Rule + " " + fresh[0].Site + ": " + fresh[0].Message
+				} else {
+					what = broken[0]
+				}
+				run.Break("self-test: false alarm on the behaviour-preserving refactoring " + name + " (" + what + ")")
+			}
 		}()
 	}
 }
@@ -303,6 +380,7 @@ func cmdTerms(args []string) {
 		fmt.Fprintln(os.Stderr, "CHECK-BROKEN:", err)
 		os.Exit(2)
 	}
+	load.Normalize(p)
 	it := shape.NewInterp(p, shape.ModeContracts)
 	for _, fi := range shape.PipelineRoots(p) {
 		name := load.FuncName(fi.Fn)
@@ -357,7 +435,12 @@ func cmdReplay(args []string) int {
 		return 2
 	}
 	run := report.NewRun(f.Property, "quick")
-	check.Fn(rules.NewCtx(p, "quick", run))
+	cr := rules.NewCtx(p, "quick", run)
+	if check.NeedSSA {
+		cr.PrepareSSA()
+	}
+	load.Normalize(p)
+	check.Fn(cr)
 	fmt.Printf("replaying %s  rule=%s site=%s detail=%s\n", f.Property, f.Rule, f.Site, f.Detail)
 	for _, g := range run.Findings {
 		if g.Rule == f.Rule && g.Site == f.Site && g.Detail == f.Detail {
@@ -385,6 +468,7 @@ func cmdMachine(args []string) {
 		fmt.Fprintln(os.Stderr, err)
 		os.Exit(2)
 	}
+	load.Normalize(p)
 	fi := p.Method(args[0], args[1], args[2])
 	if fi == nil {
 		fmt.Fprintln(os.Stderr, "not found")
